@@ -11,10 +11,12 @@
   (and their provenance) it was read from; after ANY finite history the answer equals the
   answer of a fresh object with the current configuration.
 
-  Quantifier: `min_x` lists resolve the defect (`Op.Ok`, `CfgOk`, `AInput.Ok`); what the code does
-  for a list that does not (BadRegularization; `is_solved` stays/gets `true`) is modelled and
-  exercised by the correspondence stream, and shown below in `example`s, but is outside the
-  theorems' hypotheses, as the property states.
+  Quantifier.  The single-input theorems (`full_history_free`, `svd_*`, `adj_*`, `net_*`) assume that the
+  `min_x` lists resolve the defect (`Op.Ok`, `CfgOk`, `AInput.Ok`, `inp.throws = false`).  For chol / gso the
+  multi-input theorem `full_history_free_across_inputs` has NO such hypothesis: histories that contain refused
+  solves (BadRegularization; `is_solved` is set before the throw) are covered, the region where the object
+  differs from a fresh one is characterised exactly (`Pending`) and — round 9 — shown to be a region of genuine
+  difference (`full_pending_differs_from_fresh`; svd: `svd_pending_differs_from_fresh` with its own `PendingS`).
 -/
 import Gama.Lemmas.FullState
 import Gama.Lemmas.AdjState
@@ -25,6 +27,7 @@ import Gama.Lemmas.AdjHist
 import Gama.Lemmas.AdjBuf
 import Gama.Lemmas.FullDenote
 import Gama.Lemmas.FullRefusal
+import Gama.Lemmas.FullDenoteFree
 namespace Gama.Props.C04
 open Gama Gama.C04 Gama.C04.Full Gama.C04.AdjM Gama.C04.Net
 
@@ -87,9 +90,10 @@ example :
         = .x (.reg [1, 2, 3, 4]) := by
   refine ⟨⟨by decide, by decide, by decide, (by intro hk hu; first | exact Or.inl rfl | exact absurd hk (by decide) | exact absurd hu (by decide)), by decide⟩, by decide, by decide⟩
 
-/-- outside the quantifier (a list that does not resolve the defect): both classes set
-    `is_solved = true` before they throw, so the second identical query does not throw but returns
-    the half-regularised artefact — modelled, not claimed history-free -/
+/-- a list that does not resolve the defect (outside `CfgOk` of the single-input theorems above, INSIDE
+    `full_history_free_across_inputs`: this is its `Pending` state): both classes set `is_solved = true` before they
+    throw, so the second identical query does not throw but returns the half-regularised artefact, where a fresh
+    object refuses (`full_pending_differs_from_fresh`) -/
 example :
     let inp : Full.Input := { n := 4, nullity := 2, resolves := fun l => decide (2 ≤ l.length) }
     let s1 := (Full.step .chol inp (Full.init false (some [1])) .unknowns)
@@ -140,7 +144,8 @@ example :
     ∧ (Full.sstep inp (Full.srun inp (Full.sinit false none) ops) (.qxx 1 4)).2 = .qxx 1 4 none (.reg [2, 3]) := by
   refine ⟨⟨by decide, by decide, by decide⟩, by decide, by decide, by decide, by decide⟩
 
-/-- outside the quantifier: `SVD::min_x(list)` throws from inside `AdjSVD::min_x` *before*
+/-- outside `SCfgOk`/`ValidS` (the svd theorems above still assume resolving lists; the region is `PendingS`, see
+    `svd_pending_differs_from_fresh`): `SVD::min_x(list)` throws from inside `AdjSVD::min_x` *before*
     `is_solved = false` is reached — the old `x` stays cached for the new list -/
 example :
     let inp : Full.Input := { n := 4, nullity := 2, resolves := fun l => decide (2 ≤ l.length) }
@@ -218,8 +223,10 @@ example :
 
 The current input is part of the state; `resetNew inp'` / `setData inp'` hand the object another
 problem (any size, regular or singular).  What survives physically is state of the models
-(Model/FullHist.lean, Model/AdjHist.lean).  Quantifier as before: the regularisation the object is
-configured with resolves the defect of every input it is given (`ValidF`, `ValidS`, `AInput.Ok`). -/
+(Model/FullHist.lean, Model/AdjHist.lean).  Quantifier: chol / gso — none (`full_history_free_across_inputs`
+covers refused solves; `ValidF` only in the `…_resolving` corollary and in `full_invariant_across_inputs`);
+svd and `Adj` — the regularisation the object is configured with resolves the defect of every input it is given
+(`ValidS`, `AInput.Ok`/`HAValid`). -/
 
 /-- **chol, gso: history freedom across inputs — refusals included (round 5).**  No hypothesis on the inputs, the
     lists or the outcomes: after ANY history of queries, `min_x…`, `reset`, `reset(A', b')` — any of the solves may
@@ -346,8 +353,36 @@ example :
     `fieldF (solverOf (algOf k) { p with reg := cfgReg useAll list }) op` — no branch on the defect; a function of the
     problem, the configuration and the query alone (as `env_answer_denotes`).  That the symbolic machine distinguishes
     the regular from the singular case (`.plain` / `.reg (effective list)`) is invisible in the value: `.all` and the
-    materialised list `1..n` are the same configuration for the solver models (`chol_all`, `gso_all`). -/
+    materialised list `1..n` are the same configuration for the solver models (`chol_all`, `gso_all`).
+
+    Round 9: on top of `full_history_free_across_inputs` — NO `CfgOk`, `ValidF`, `op.Ok`.  EVERY history (refused
+    solves included), EVERY op; the only state excluded is `Pending` (where the object provably differs from a fresh
+    one, `full_pending_differs_from_fresh`).  A refused answer is covered: `.badReg` denotes
+    `.err .BadRegularization`, and that is `answerF` there, because under `FactsF` a list with `resolves = false` makes
+    the numeric solver model return `.error .BadRegularization` (the chol / gso models never use the deferred `xErr`).
+    Of `FactsF` only `n` and `resolves` are used; `nullity ≤ n`, `sub`, `cfg` of the old `Inv` are not needed.
+    The ONE hypothesis kept, `hall`, is the representation invariant of `AdjCholDec`'s "all" mode for the INITIAL
+    configuration (`minx_t == ALL` ⇒ no list stored, or a list `1..n'` an earlier `solve()` built; `Inv.all` on its own).
+    It is needed because the machine state `Full.init true (some l)` with an arbitrary `l` of length `n` — which no call
+    sequence on the real class produces (the constructor stores no list, `min_x()` frees it) — would regularise over
+    `l` (`solve()` rebuilds the list only `if (minx_n != N)`), whereas `answerF` under "all" uses `1..n`.  It holds for
+    the constructor, for whatever the driver creates (`Full.init l.isNone l`: `allOk_isNone`), for gso vacuously, and
+    every step keeps it (`allOk_hfrun`). -/
 theorem full_answer_denotes {K : Type} [Scalar K] (p : Ls.Problem K)
+    (k : Kind) (inp0 : Full.Input) (ua : Bool) (l0 : Option (List Nat))
+    (hall : k = .chol → ua = true → l0 = none ∨ ∃ n', l0 = some (allList n'))
+    (ops : List Full.HOp) (op : Full.Op) :
+    let h := hfrun k ⟨inp0, Full.init ua l0⟩ ops
+    ¬ Pending k h.inp h.s → FactsF (algOf k) p h.inp →
+    denoteF (algOf k) p (cfgReg h.s.useAll h.s.list) (hfstep k h (.q op)).2
+      = answerF (algOf k) p h.s.useAll h.s.list op := by
+  intro h hp hF
+  exact denoteF_step k p h.inp h.s (hfrunR k ⟨inp0, Full.init ua l0⟩ (invR_unsolved _ _ _ rfl) ops)
+    (allOk_hfrun k ⟨inp0, Full.init ua l0⟩ hall ops) hp hF op
+
+/-- the round-4/6 statement (histories whose configurations resolve every defect: `CfgOk`, `ValidF`, `op.Ok`) is the
+    special case in which no refusal is ever pending (`not_pending_of_inv`) and `hall` is `Inv.all` -/
+theorem full_answer_denotes_resolving {K : Type} [Scalar K] (p : Ls.Problem K)
     (k : Kind) (inp0 : Full.Input) (ua : Bool) (l0 : Option (List Nat))
     (h0 : CfgOk k inp0 ua l0) (ops : List Full.HOp) (hops : ValidF k ⟨inp0, Full.init ua l0⟩ ops)
     (op : Full.Op) (hop : op.Ok (hfrun k ⟨inp0, Full.init ua l0⟩ ops).inp) :
@@ -356,10 +391,41 @@ theorem full_answer_denotes {K : Type} [Scalar K] (p : Ls.Problem K)
     denoteF (algOf k) p (cfgReg h.s.useAll h.s.list) (hfstep k h (.q op)).2
       = answerF (algOf k) p h.s.useAll h.s.list op := by
   intro h hF
-  have hs := (Full.step_spec (hfrun_inv (h := ⟨inp0, Full.init ua l0⟩) h0 hops) op hop).2.1
-  show denoteF (algOf k) p _ (Full.step k h.inp h.s op).2 = _
-  rw [hs, denoteF_spec k (algOf k) p _ h.inp _ op]
-  exact directF_eq_answerF k p h.inp hF h.s op
+  have _ := hop
+  exact full_answer_denotes p k inp0 ua l0 h0.all ops op
+    (not_pending_of_inv (hfrun_inv (h := ⟨inp0, Full.init ua l0⟩) h0 hops)) hF
+
+/-- non-vacuity of the hypothesis-free `full_answer_denotes` (exact arithmetic; `decide +kernel` runs `cholSolve` on
+    the rationals): a rank-1 problem in 2 unknowns (defect 1), the machine on `Full.inputOf .chol p`, created with the
+    EMPTY list.  The first `unknowns()` is refused and leaves `Pending`; after `reset(A, b)` with the same data nothing
+    is pending, the query is refused AGAIN — and by the theorem that refusal denotes what the numeric model answers
+    under the empty list: `.err .BadRegularization`; after `min_x([1])` instead nothing is pending either and the
+    answer is `x` regularised over `[1]`. -/
+example :
+    let p : Ls.Problem Rat := { m := 3, n := 2, rows := #[#[(1, 1), (2, 1)], #[(1, 1), (2, 1)], #[(1, 1), (2, 1)]],
+                                cov := #[⟨3, 0, #[1, 1, 1]⟩], rhs := #[1, 2, 4], reg := .all }
+    let inp := Full.inputOf .chol p
+    let h0 : HF := ⟨inp, Full.init false (some [])⟩
+    let h1 := hfrun .chol h0 [.q .unknowns]
+    let h2 := hfrun .chol h0 [.q .unknowns, .resetNew inp]
+    let h3 := hfrun .chol h0 [.q .unknowns, .q (.minx [1])]
+    inp.nullity = 1 ∧ (hfstep .chol h0 (.q .unknowns)).2 = .badReg ∧ Pending .chol h1.inp h1.s
+    ∧ ¬ Pending .chol h2.inp h2.s ∧ (hfstep .chol h2 (.q .unknowns)).2 = .badReg
+    ∧ answerF .chol p false (some []) .unknowns = .err .BadRegularization
+    ∧ ¬ Pending .chol h3.inp h3.s ∧ (hfstep .chol h3 (.q .unknowns)).2 = .x (.reg [1])
+    ∧ FactsF .chol p h3.inp := by
+  intro p inp h0 h1 h2 h3
+  have hp2 : ¬ Pending .chol h2.inp h2.s := by decide +kernel
+  have e2 : (hfstep .chol h2 (.q .unknowns)).2 = .badReg := by decide +kernel
+  have eu : h2.s.useAll = false := by decide +kernel
+  have el : h2.s.list = some [] := by decide +kernel
+  have T : denoteF (algOf .chol) p (cfgReg h2.s.useAll h2.s.list) (hfstep .chol h2 (.q .unknowns)).2
+      = answerF (algOf .chol) p h2.s.useAll h2.s.list .unknowns :=
+    full_answer_denotes p .chol inp false (some []) (fun _ h => by cases h) [.q .unknowns, .resetNew inp] .unknowns
+      hp2 (factsF_inputOf .chol p)
+  rw [e2, eu, el] at T
+  exact ⟨by decide +kernel, by decide +kernel, by decide +kernel, hp2, e2, T.symm, by decide +kernel, by decide +kernel,
+    factsF_inputOf .chol p⟩
 
 /-- … and for `AdjSVD` (a configured subset, else all: `V` stays plain): `answerS p sub list op
     = fieldF (solverOf .svd { p with reg := cfgReg (!sub) list }) op` — no branch on the defect either -/
@@ -456,6 +522,58 @@ theorem full_driver_cfg_ok {K : Type} [Scalar K] (k : Kind) (p : Ls.Problem K) (
     · exact Or.inr (Or.inr hr)
   · intro hh; simp [Full.sinit] at hh
   · intro hh; simp [Full.sinit] at hh
+
+/-- **The driver's ADJ entry (round 9).**  The full-matrix solver inside `Adj` is not given `p` but the homogenised
+    system: `q = dotProblem p A_dot b_dot` with `(A_dot, b_dot) = homogenise p` (Model/Ls/Adj.lean) — the numeric
+    model of a fresh `Adj` (`Ls.adjSolve`) answers with the defect and the unknowns of `solverOf alg q`.
+    `Driver/FullState.lean` now runs the chol / gso / svd machines inside the `Adj` machine on `Full.inputOf alg q`
+    (before: the probe's nullity and a length test for `resolves`) and accepts an `info chol|gso|svd` line of the adj
+    entry — `n` and `defect()` of a fresh real `Adj` with that algorithm — only if `f.agrees alg q`.  Then, as
+    `full_driver_input_is_instance` at `q`: the facts hypothesis holds for the input the inner machine runs on, the
+    facts read from the implementation are that input's, and the input is well formed. -/
+theorem adj_driver_input_is_instance {K : Type} [Scalar K] (alg : Ls.Alg) (halg : alg ≠ .env) (p : Ls.Problem K)
+    (Ad : Ls.DMat K) (bd : Array K) (f : FInfo) :
+    let q := Ls.AdjM.dotProblem p Ad bd (Ls.AdjM.regOf p.reg)
+    Ls.AdjM.homogenise p = .ok (Ad, bd) → f.agrees alg q = true →
+    (∀ a, Ls.adjSolve alg p = .ok a → ∃ s, Ls.solverOf alg q = .ok s ∧ a.defect = s.defect ∧ a.x = s.x)
+    ∧ FactsF alg q (Full.inputOf alg q)
+    ∧ f.n = p.n ∧ (Full.inputOf alg q).n = p.n ∧ f.nullity = (Full.inputOf alg q).nullity
+    ∧ (Full.inputOf alg q).nullity ≤ p.n := by
+  intro q hh ha
+  refine ⟨fun a hs => ?_, factsF_inputOf alg q, (FInfo.agrees_spec ha).1, rfl, (FInfo.agrees_spec ha).2,
+    defectF_le alg halg q⟩
+  have hs' : Ls.adjFull alg p = .ok a := by cases alg <;> first | exact absurd rfl halg | exact hs
+  simp only [Ls.adjFull, hh] at hs'
+  split at hs'
+  · exact absurd hs' (by simp)
+  · rename_i s hq
+    split at hs'
+    · exact absurd hs' (by simp)
+    · injection hs' with hs'
+      subst hs'
+      exact ⟨s, hq, rfl, rfl⟩
+
+/-- non-vacuity (exact arithmetic, unit covariance so that the homogenisation is square-root free): the rank-1
+    problem in 2 unknowns; the homogenisation succeeds, `info chol 2 1` agrees with the homogenised system,
+    `info chol 2 0` is refused -/
+example :
+    let p : Ls.Problem Rat := { m := 3, n := 2, rows := #[#[(1, 1), (2, 1)], #[(1, 1), (2, 1)], #[(1, 1), (2, 1)]],
+                                cov := #[⟨3, 0, #[1, 1, 1]⟩], rhs := #[1, 2, 4], reg := .subset [2] }
+    ∃ Ad bd, Ls.AdjM.homogenise p = .ok (Ad, bd)
+      ∧ (FInfo.mk 2 1).agrees .chol (Ls.AdjM.dotProblem p Ad bd (Ls.AdjM.regOf p.reg)) = true
+      ∧ (FInfo.mk 2 0).agrees .chol (Ls.AdjM.dotProblem p Ad bd (Ls.AdjM.regOf p.reg)) = false := by
+  intro p
+  have h : (match Ls.AdjM.homogenise p with
+      | .ok (Ad, bd) => (FInfo.mk 2 1).agrees .chol (Ls.AdjM.dotProblem p Ad bd (Ls.AdjM.regOf p.reg))
+                        && !(FInfo.mk 2 0).agrees .chol (Ls.AdjM.dotProblem p Ad bd (Ls.AdjM.regOf p.reg))
+      | .error _ => false) = true := by decide +kernel
+  cases hh : Ls.AdjM.homogenise p with
+  | error e => rw [hh] at h; exact absurd h (by simp)
+  | ok r =>
+    obtain ⟨Ad, bd⟩ := r
+    rw [hh] at h
+    simp only [Bool.and_eq_true, Bool.not_eq_true'] at h
+    exact ⟨Ad, bd, rfl, h.1, h.2⟩
 
 /-- non-vacuity (exact arithmetic; `decide +kernel` runs `cholSolve` on the rationals): a regular 3×2 problem
     (defined with the list `[1]`, which `inputOf` does not look at); the `info` facts `⟨2, 0⟩` agree with the numeric
@@ -687,7 +805,8 @@ theorem net_studentized_residual_reads_before_adjusting :
     ∧ (memberD "studentized_residual").ensures = some 3 := by decide
 
 /-- **A throw of the solver inside `vyrovnani_`** (a configuration for which the regularisation does
-    not resolve the defect — outside the quantifier of the history-freedom theorems): the flag, set
+    not resolve the defect — outside `inp.throws = false` of the `net_*` history-freedom theorems; at the solver
+    level such histories are inside `full_history_free_across_inputs`): the flag, set
     before the solver is consulted, is taken back by the handler; the invariant survives for every
     reachable state, and an adjusted network never re-consults the solver. -/
 theorem net_throw_keeps_invariant (inp : NInput) (hthr : inp.throws = true) (s : NState) (h : NInv s) :
@@ -711,40 +830,43 @@ example :
 
 `set_algorithm()` creates a NEW solver object (default: regularise over ALL unknowns) and `update(Points)`;
 `project_equations()` hands the list of the current numbering (`min_x_`: the constrained coordinates of a free
-network) to the solver on every run.  `MState` keeps which list the CURRENT solver object holds, and the adjustment
-artefacts carry (ghost) the list held by the solver that produced them. -/
+network) to the solver on every run.  `MState` keeps which list the CURRENT solver object holds and its class, and the
+adjustment artefacts carry (ghost) the list held by, and the class of, the solver that produced them. -/
 
-/-- **The solver that produced what is read held the list of the current numbering.**  After ANY history of
-    configuration changes, `update_*`, member calls and `set_algorithm` (no solver exception), a member that reads
-    the adjustment artefacts (unknowns, residuals, [pvv], cofactors …) reads artefacts produced by a solver object that
-    had been given `min_x(min_n_, min_x_)` with the list computed from the CURRENT configuration
-    (`curList = .given (lst (snap cfg 2))`) — never a solver left at its default (all unknowns) by `set_algorithm`,
-    never a list of an earlier numbering.  Invariant (`MInv`): while `tst_rov_opr_` the current solver holds the current
-    list; while `tst_vyrovnani_` the adjustment was produced under it. -/
+/-- **The solver that produced what is read held the list of the current numbering and is of the selected class.**
+    After ANY history of configuration changes, `update_*`, member calls and `set_algorithm(name)` (no solver
+    exception), a member that reads the adjustment artefacts (unknowns, residuals, [pvv], cofactors …) reads artefacts
+    produced by a solver object that had been given `min_x(min_n_, min_x_)` with the list computed from the CURRENT
+    configuration (`curList = .given (lst (snap cfg 2))`) — never a solver left at its default (all unknowns) by
+    `set_algorithm`, never a list of an earlier numbering — and of the class selected LAST.  Invariant (`MInv`): while
+    `tst_rov_opr_` the current solver holds the current list; while `tst_vyrovnani_` the adjustment was produced under it
+    by the current object's class.  Round 9: the two steps of the machine this rests on are interpreted from rows
+    regenerated from network.cpp (`handCode_eq`, `setAlgCode_eq`; `net_handover_site`, `net_set_algorithm_site` in
+    Props/C04Net.lean), the list is a list (`lst : Cfg → List Nat`, tied to `np.minx` in `net_answer_denotes`). -/
 theorem net_solver_holds_current_minx (inp : MInput) (hthr : inp.net.throws = false) (c0 : Cfg) (ops : List MOp)
     (hops : ∀ o ∈ ops, o.Ok) (mem : Gen.Member) (hm : mem.WF) (hr : mem.reads.contains 3 = true) :
     let m := mrun inp (minit c0) ops
-    MInv inp m ∧ (mstep inp m (.net (.call mem))).2.2 = some (curList inp m.net) :=
+    MInv inp m ∧ (mstep inp m (.net (.call mem))).2.2 = some (curList inp m.net, m.cls) :=
   ⟨mrun_inv inp hthr (minv_init inp c0) hops,
    mstep_reads inp hthr (mrun_inv inp hthr (minv_init inp c0) hops) (.call mem) hm hr⟩
 
 /-- non-vacuity + **the hand-over on every run is needed (witness: seeded/C04-seed4).**  `residuals()` is a covered
-    member reading the adjustment; the list does not depend on the algorithm (`lst` constant 7).  History: adjust,
-    `set_algorithm`, ask again.  The code hands the list to the new solver object (`.given 7`); the variant that hands
+    member reading the adjustment; the list does not depend on the algorithm (`lst` constant `[7]`).  History: adjust,
+    `set_algorithm`, ask again.  The code hands the list to the new solver object (`.given [7]`); the variant that hands
     it over only when it differs from the previous run's (`handOnChange`) finds it unchanged, and the residuals — and
     with them coordinates, standard deviations, ellipses — come from a solver regularising over ALL unknowns
-    (`.dflt`), which is not what a fresh network does (`.given 7`).  Without `set_algorithm` the variant is fine. -/
+    (`.dflt`), which is not what a fresh network does (`.given [7]`).  Without `set_algorithm` the variant is fine. -/
 example :
     let resid := memberD "residuals"
-    let inp : MInput := { net := { throws := false }, lst := fun _ => 7 }
-    let ops := [MOp.net (.call resid), .setAlgorithm]
+    let inp : MInput := { net := { throws := false }, lst := fun _ => [7] }
+    let ops := [MOp.net (.call resid), .setAlgorithm "gso"]
     resid.WF ∧ resid.reads.contains 3 = true ∧ (∀ o ∈ ops, o.Ok)
-    ∧ (mstep inp (mrun inp (minit ⟨0, 0, 0, 0⟩) ops) (.net (.call resid))).2.2 = some (.given 7)
-    ∧ (mstepWith handOnChange inp (mrunWith handOnChange inp (minit ⟨0, 0, 0, 0⟩) ops) (.net (.call resid))).2.2
-        = some .dflt
-    ∧ (mstep inp (minit ⟨0, 0, 0, 0⟩) (.net (.call resid))).2.2 = some (.given 7)
-    ∧ (mstepWith handOnChange inp (mrunWith handOnChange inp (minit ⟨0, 0, 0, 0⟩) [.net (.call resid), .net (.change 2)])
-        (.net (.call resid))).2.2 = some (.given 7) := by
+    ∧ (mstep inp (mrun inp (minit ⟨0, 0, 0, 0⟩) ops) (.net (.call resid))).2.2 = some (.given [7], "AdjGSO")
+    ∧ (mstepWith handOnChange Gen.setAlg inp (mrunWith handOnChange Gen.setAlg inp (minit ⟨0, 0, 0, 0⟩) ops) (.net (.call resid))).2.2
+        = some (.dflt, "AdjGSO")
+    ∧ (mstep inp (minit ⟨0, 0, 0, 0⟩) (.net (.call resid))).2.2 = some (.given [7], "AdjEnvelope")
+    ∧ (mstepWith handOnChange Gen.setAlg inp (mrunWith handOnChange Gen.setAlg inp (minit ⟨0, 0, 0, 0⟩) [.net (.call resid), .net (.change 2)])
+        (.net (.call resid))).2.2 = some (.given [7], "AdjEnvelope") := by
   refine ⟨Gen.Member.wf_of_wfb (by decide), by decide, ?_, by decide, by decide, by decide, by decide⟩
   intro o ho
   simp only [List.mem_cons, List.mem_nil_iff, or_false] at ho
